@@ -5,7 +5,7 @@ import vtlib
 from checks import synccheck
 
 META = dict(
-    text='TLC exhausts the wait / notify protocol at critical-section granularity (CondVar.tla: 2 waiters + 2 notifiers, mutex or spinlock as the user lock, timeouts, notify with and without the lock; waiter is linked into the wait queue BEFORE the user lock is released on the next stack) for NoLostNotification, NotifyOneExact, NotifyAllCoversWaiters and ReturnsWithLock; the same module with the unlock moved before the enqueue must produce a lost notification (anti-vacuity). Recorded executions of the real condition_variable (random programs of wait(lock, timeout 200us..inf) / notify_one / notify_all with and without the lock held, mutex and spinlock flavours, 1-3 vCPUs) are validated by TLC against the abstract object (lock owner + waiting set): release-and-wait is one instant, notify_one returns a thread iff the waiting set was non-empty and removes exactly that thread, notify_all covers everyone waiting when it began, wait() returns holding the lock, 0 iff notified, -1/ETIMEDOUT only after the deadline; threads found asleep must still be in the waiting set. Scripted one-vCPU sequences (conductor) are judged the same way. Tier B: in further executions the guarded hook events are checked for the protocol order itself: the waiter is linked into the condition variable\'s queue (hSleep) before its mutex is released (hMtxUnlock); an unlock in between is rejected on any execution that takes such a path, whether or not a notifier ran in the gap.',
+    text='TLC exhausts the wait / notify protocol at critical-section granularity (CondVar.tla: 2 waiters + 2 notifiers, mutex or spinlock as the user lock, timeouts, notify with and without the lock; waiter is linked into the wait queue BEFORE the user lock is released on the next stack) for NoLostNotification, NotifyOneExact, NotifyAllCoversWaiters and ReturnsWithLock; the same module with the unlock moved before the enqueue must produce a lost notification (anti-vacuity). Recorded executions of the real condition_variable (random programs of wait(lock, timeout 200us..inf) / notify_one / notify_all with and without the lock held, mutex and spinlock flavours, 1-3 vCPUs) are validated by TLC against the abstract object (lock owner + waiting set): release-and-wait is one instant, notify_one returns a thread iff the waiting set was non-empty and removes exactly that thread, notify_all covers everyone waiting when it began, wait() returns holding the lock, 0 iff notified, -1/ETIMEDOUT only after the deadline; threads found asleep must still be in the waiting set. Scripted one-vCPU sequences (conductor) are judged the same way. Tier B: in further executions the guarded hook events are checked for the protocol order itself: the waiter is linked into the condition variable\'s queue (hSleep) before its mutex is released (hMtxUnlock); an unlock in between is rejected on any execution that takes such a path, whether or not a notifier ran in the gap. The conductor can keep the user mutex across steps (H / R), so a waiter that is notified, timed out or interrupted meanwhile has to queue for it: wait() must still return only as the owner.',
     note='TLC results hold for the stated populations; conformance samples schedules. Elapsed time is measured on the runtime clock around the call with a freshly updated clock.',
     technique='TLA+ critical-section model checked exhaustively by TLC (with a broken variant as witness); TLC trace validation against the abstract condition variable of executions recorded from the real code',
     design='3/C03')
